@@ -223,3 +223,11 @@ func (r *Run) Finish(c Coverage) int {
 	}
 	return 1
 }
+
+// Repo is the repository the harness was built against (/repo unless VERIF_REPO points a background sweep at a snapshot).
+func Repo() string {
+	if r := os.Getenv("VERIF_REPO"); r != "" {
+		return r
+	}
+	return "/repo"
+}
